@@ -247,7 +247,11 @@ func (fv *FuncVC) placeToValue(p *Place, ptrType types.Type) string {
 				fn += ".i"
 			}
 		}
-		fv.g.declareGlobal(fn, fmt.Sprintf("(declare-fun %s (Int) Int)", fn))
+		// concrete injective encoding: distinct fields give disjoint address ranges
+		if _, ok := fv.g.extraDecl[fn]; !ok {
+			k := len(fv.g.extraDecl) + 1
+			fv.g.declareGlobal(fn, fmt.Sprintf("(define-fun %s ((x Int)) Int (+ (* x 65536) %d))", fn, k))
+		}
 		return "(" + fn + " " + p.Ref + ")"
 	case PLocal:
 		fn := "la$" + sanitize(fv.key) + "$" + sanitize(p.Local.Name())
